@@ -90,18 +90,62 @@ def xml_subst(cfg, types, child):
     return f'<t:P xmlns:t="urn:T"><t:{child}>{body}</t:{child}></t:P>'
 
 
+XSI_NS = 'xmlns:xsi="http://www.w3.org/2001/XMLSchema-instance"'
+
+
+def xsd_simple(cfg):
+    e = (f'<xs:element name="E" type="xs:integer"{blk("block", cfg["eblock"])}'
+         f'{" fixed=\"1\"" if cfg["fixed"] == "one" else ""}'
+         f'{" nillable=\"true\"" if cfg["nillable"] else ""}/>')
+    small = ('<xs:simpleType name="small"><xs:restriction base="xs:integer"><xs:maxInclusive value="10"/>'
+             '</xs:restriction></xs:simpleType>')
+    return (f'<xs:schema xmlns:xs="{cm.XS}" targetNamespace="urn:T" xmlns:t="urn:T" '
+            f'elementFormDefault="qualified">{small}{e}</xs:schema>')
+
+
+def xml_simple(inst):
+    at = {"none": "", "int": ' xsi:type="xs:int"', "decimal": ' xsi:type="xs:decimal"',
+          "string": ' xsi:type="xs:string"', "small": ' xsi:type="t:small"',
+          "unknown": ' xsi:type="t:nope"'}[inst["xt"]]
+    if inst["nil"] == "true":
+        at += ' xsi:nil="true"'
+    return f'<t:E xmlns:t="urn:T" xmlns:xs="{cm.XS}" {XSI_NS}{at}>{inst["text"]}</t:E>'
+
+
+def xsd_alt(alts):
+    def tdef(name, child):
+        return (f'<xs:complexType name="{name}"><xs:complexContent><xs:extension base="t:T"><xs:sequence>'
+                f'<xs:element name="{child}" type="xs:string"/></xs:sequence></xs:extension>'
+                f'</xs:complexContent></xs:complexType>')
+    al = "".join((f'<xs:alternative type="t:{t}"/>' if test == "default"
+                  else f'<xs:alternative test="@k=\'{test}\'" type="t:{t}"/>') for test, t in alts)
+    return (f'<xs:schema xmlns:xs="{cm.XS}" targetNamespace="urn:T" xmlns:t="urn:T" '
+            f'elementFormDefault="qualified">'
+            f'<xs:complexType name="T"><xs:sequence/><xs:attribute name="k" type="xs:string"/></xs:complexType>'
+            f'{tdef("TA", "x")}{tdef("TB", "y")}{tdef("TC", "z")}'
+            f'<xs:element name="E" type="t:T">{al}</xs:element></xs:schema>')
+
+
+def xml_alt(inst):
+    k = "" if inst["k"] == "absent" else f' k="{inst["k"]}"'
+    body = "" if inst["child"] == "none" else f'<t:{inst["child"]}>v</t:{inst["child"]}>'
+    return f'<t:E xmlns:t="urn:T"{k}>{body}</t:E>'
+
+
 def judge(job):
     mode, cfg, types, cases = job
     out = []
-    xsd = xsd_xsitype(cfg, types) if mode == "xsitype" else xsd_subst(cfg, types)
+    xsd = {"xsitype": lambda: xsd_xsitype(cfg, types), "subst": lambda: xsd_subst(cfg, types),
+           "simple": lambda: xsd_simple(cfg), "alt": lambda: xsd_alt(cfg)}[mode]()
     n = 0
-    for ver in ("1.0", "1.1"):
+    for ver in (("1.1",) if mode == "alt" else ("1.0", "1.1")):
         schema, err = cm.build(ver, xsd)
         if schema is None:
             out.append((ver, None, f"schema refused: {type(err).__name__}: {str(err)[:200]}", None, "build"))
             continue
         for inst, word, want in cases:
-            xml = xml_xsitype(inst, word) if mode == "xsitype" else xml_subst(cfg, types, inst)
+            xml = {"xsitype": lambda: xml_xsitype(inst, word), "subst": lambda: xml_subst(cfg, types, inst),
+                   "simple": lambda: xml_simple(inst), "alt": lambda: xml_alt(inst)}[mode]()
             n += 1
             try:
                 got = schema.is_valid(xml)
@@ -124,7 +168,7 @@ def explore(ctx: Ctx, mode, small=False):
     types = {}
     for rec in r.json_records():
         k = json.dumps(rec["cfg"], sort_keys=True)
-        types[k] = rec["types"]
+        types[k] = rec.get("types")
         by[k].append((rec["inst"], rec.get("word"), rec["valid"]))
     return by, types
 
@@ -141,7 +185,7 @@ def known(mode, cfg, inst, direction):
 def run(ctx: Ctx):
     thorough = ctx.tier == "thorough"
     total = 0
-    for mode in ("xsitype", "subst"):
+    for mode in ("xsitype", "subst", "simple", "alt"):
         by, types = explore(ctx, mode, small=not thorough)
         keys = sorted(by)
         jobs = [(mode, json.loads(k), types[k], by[k]) for k in keys]
@@ -150,7 +194,8 @@ def run(ctx: Ctx):
             total += n
             for ver, inst, what, xml, direction in bad:
                 ctx.report({"mode": m, "ver": ver, "cfg": cfg, "types": ty, "inst": inst, "xml": xml,
-                            "xsd": xsd_xsitype(cfg, ty) if m == "xsitype" else xsd_subst(cfg, ty),
+                            "xsd": {"xsitype": lambda: xsd_xsitype(cfg, ty), "subst": lambda: xsd_subst(cfg, ty),
+                                    "simple": lambda: xsd_simple(cfg), "alt": lambda: xsd_alt(cfg)}[m](),
                             "observed": what},
                            f"{m} {ver}: {what} for {json.dumps(inst)} under {json.dumps(cfg)}"[:400],
                            finding=known(m, cfg, inst, direction))
@@ -163,7 +208,9 @@ def run(ctx: Ctx):
                 "abstract type, block on the declared type / element / blockDefault, abstract and "
                 "nillable element) x every instance (xsi:type in {none,T0,T1,T2,unknown,xs:string} x "
                 "xsi:nil x content variant), and every substitution configuration (head, member, "
-                "member of member) x child; quick uses a reduced family of block sets; both classes")
+                "member of member) x child; simple-typed element (xsi:type among simple types, fixed value in "
+                "another lexical form, nil) x instance; XSD 1.1 type alternatives (5 alternative lists x @k x "
+                "content); quick uses a reduced family of block sets; both classes")
     ctx.assumptions += ["block sets only on the declared type, the element and blockDefault "
                         "(explicit blocks on intermediate types are outside the universe: XSD 1.0 and "
                         "1.1 differ there)", "complex types with element-only content"]
